@@ -40,8 +40,11 @@ CLAIMED = {
                   "of another), that parsing any single file terminates without panic, and that, unless the unsupported .macro is used, every "
                   "significant token and every lexical error is inside the range of a produced node or on a line with a reported parse error "
                   "(nothing is dropped silently). Tied to lexer.rs/parsing.rs by comparing items, nodes and errors; the checker re-does the token "
-                  "accounting and a delete-one-malformed-line differential on the implementation alone.",
-             design="8/C07", note=NOTE + "The delete-a-line containment at parser level is checked differentially, proved only at lexer level.",
+                  "accounting and a delete-one-malformed-line differential on the implementation alone. Parser level (Props/C07par.v): for a text "
+                  "A ++ M ++ B of complete lines where A and M end at a statement boundary, nodes and errors are those of A, M and B parsed alone, up to "
+                  "positions (C07_parse_line_local), hence replacing or deleting M - whatever it contains - leaves the nodes and errors of A and B unchanged "
+                  "(C07_bad_line_contained, C07_delete_block); every line without an open data directive or .macro is such a boundary (C07_plain_line_closed).",
+             design="8/C07", note=NOTE + "Hypothesis `closed` (statement boundary) is necessary: a data directive keeps consuming numbers over newlines, .macro swallows lines (counterexamples proved).",
              technique="Coq proof (lexer/parser invariants) + differential correspondence"),
  "C09": dict(text="Locations: Coq theorems prove for every newline-terminated text, both profiles, that lexing succeeds and every token's line/column "
                   "are those of its raw offset, the range lies inside the text on one line and covers exactly the token's spelling, and that tokens "
@@ -99,6 +102,23 @@ CLAIMED = {
              design="8/C10", note=NOTE + "Partial: independence from hash iteration order is observed over repeated runs, not proved; the theorem covers the ordering step and, "
                   "through the correspondence, that the model (a function) predicts the implementation's items.",
              technique="Coq proof (stable sort: permutation, sortedness, stability) + repeated-run differential exploration"),
+ "C14": dict(text="Renaming equivariance, whole pipeline: Coq theorems prove for EVERY class permutation sigma (a bijection moving temporaries among "
+                  "temporaries, saved among saved, fixing every other register; given as a validated list) and EVERY injective label renaming rho that "
+                  "fixes the one reserved internal name: all register-class tables and ecall signatures are invariant (C14_tables); kill/gen, every "
+                  "per-node set and predicate are equivariant for every node (C14_regs_node, C14_labels_node); liveness and the value analysis commute "
+                  "with the renaming (C14_liveness, C14_avail, C14_transfer); the whole pipeline does (C14_pipeline: gen_full_cfg of the renamed "
+                  "program is the renamed graph or the renamed error); and the diagnostics of the renamed program are a PERMUTATION of the original "
+                  "ones with identical kinds, locations and flags (C14_items, C14_regs_items; plain equality for label renamings, "
+                  "C14_labels_items). Plain list equality under register permutations is refuted by a proved counterexample (three lints enumerate "
+                  "register sets in numeric order: only the order of same-node findings changes). Tied to the code by the lint/graph correspondence on "
+                  "renamed programs; the checker lints each program as written and after a random renaming/permutation and compares kinds, statements "
+                  "and operand positions with operands mapped (this exploration and the proof work found a genuine defect: a user label named "
+                  "__return__ captured the analyzer's internal jump name; fixed).",
+             design="8/C14", note=NOTE + "Hypotheses: rho injective and fixing the reserved name '<return>' (not a valid identifier since the fix, so every renaming of valid identifiers "
+                  "extends to such a rho); for the 'labels not defined' error the reported location/title follows rho only if rho is monotone on the undefined labels (the code "
+                  "picks the alphabetically first): counterexample proved, location is always one of the undefined labels. Renaming acts on parsed nodes; that the parser maps "
+                  "renamed text to renamed nodes is C13's spelling tables plus the parser correspondence.",
+             technique="Coq proof (equivariance of every pipeline stage by simulation) + differential correspondence + renaming metamorphic exploration"),
  "C15": dict(text="Include = textual inclusion: Coq theorems over the model of the file driver prove, for every store, text and fault: parsing is "
                   "parametric in positions and file identities (C15_parse_one_erase, C15_drive_erase); a failing .include (absent path, IO fault, "
                   "already imported = self/cyclic/second inclusion) contributes exactly its error located on the directive's path token, no node, and "
